@@ -114,18 +114,19 @@ func (k EndKind) String() string { return [...]string{"idle", "eof", "err", "fin
 
 // Script drives one connection.
 type Script struct {
-	Handshake   string // "", "garbage", "close", "autherr", "reset"
-	SetReject   bool   // answer the SET @master_binlog_checksum query with ERR
-	SetClose    bool   // close the socket instead of answering the SET query
-	Faults      map[int]Fault
-	End         EndKind
-	EndCode     uint16
-	EndMsg      string
-	EndState    string
-	LockStep    bool
-	AnyPosEOF   bool  // answer any dump request with EOF at once (handshake tests)
-	MicroDelays []int // microseconds to sleep before packet i (cyclic), nil = none
-	OnPacket    func(i int)
+	Handshake     string // "", "garbage", "close", "autherr", "reset"
+	SetReject     bool   // answer the SET @master_binlog_checksum query with ERR
+	SetRejectCode uint16 // error code for SetReject (0 = 1193)
+	SetClose      bool   // close the socket instead of answering the SET query
+	Faults        map[int]Fault
+	End           EndKind
+	EndCode       uint16
+	EndMsg        string
+	EndState      string
+	LockStep      bool
+	AnyPosEOF     bool  // answer any dump request with EOF at once (handshake tests)
+	MicroDelays   []int // microseconds to sleep before packet i (cyclic), nil = none
+	OnPacket      func(i int)
 }
 
 // DumpReq is a decoded COM_BINLOG_DUMP.
@@ -464,7 +465,11 @@ func (m *Master) serve(c net.Conn, cl *ConnLog, scr *Script) {
 			case strings.Contains(lq, "master_binlog_checksum") && scr.SetClose:
 				return
 			case strings.Contains(lq, "master_binlog_checksum") && scr.SetReject:
-				p.writePacket(ErrPacket(1193, "HY000", "Unknown system variable 'binlog_checksum'"))
+				code := scr.SetRejectCode
+				if code == 0 {
+					code = 1193
+				}
+				p.writePacket(ErrPacket(code, "HY000", "Unknown system variable 'binlog_checksum'"))
 			default:
 				p.writePacket(okPacket())
 			}
